@@ -58,6 +58,18 @@ impl PushSocket {
             (match r.1 { Some(i) => conn_of(pipe_read_id) == Some(iface_id(i)), None => conn_of(pipe_read_id) is None }),
   { unimplemented!() }
 }
+
+// ---- DEALER: the same two containers plus the ingress side of the pipe
+pub struct PipeSet { pub keys: Ghost<Set<usize>> }    // Mutex<HashMap<usize, PipeMessageSender>> / the ingress engine's registered pipes: key set only
+impl PipeSet {
+  #[verifier::external_body]
+  pub fn remove(&mut self, k: &usize) -> (r: Option<usize>) ensures final(self).keys@ == old(self).keys@.remove(*k) { unimplemented!() }
+  #[verifier::external_body]
+  pub fn deregister_pipe(&mut self, k: usize) ensures final(self).keys@ == old(self).keys@.remove(k) { unimplemented!() }
+}
+pub struct Notifier { pub wakeups: Ghost<nat> }
+impl Notifier { #[verifier::external_body] pub fn notify_waiters(&mut self) ensures final(self).wakeups@ == old(self).wakeups@ + 1 { unimplemented!() } }
+pub struct DealerSocket { pub pipe_read_to_endpoint_uri: UriMap, pub outgoing_orchestrator: Orchestrator, pub ingress_engine: PipeSet, pub pending_pipe_senders: PipeSet, pub peer_availability_notifier: Notifier }
 """
 
 parts = [
@@ -88,6 +100,21 @@ parts = [
         "final(self).pipe_read_to_endpoint_uri@ == old(self).pipe_read_to_endpoint_uri@ && final(self).outgoing_orchestrator.ops@ == old(self).outgoing_orchestrator.ops@"),
      ]),
 ]
+
+DS = "core/src/socket/dealer_socket.rs"
+parts.append(
+  Fn(DS, "pipe_detached", impl=r"impl\s+ISocket\s+for\s+DealerSocket\b", emit_impl="impl DealerSocket", sig_sub=[("&self", "&mut self")], ret=None, rename="DealerSocket::pipe_detached",
+     extra=[("R6", "self.pipe_read_to_endpoint_uri.write().remove(", "self.pipe_read_to_endpoint_uri.remove(", 1),
+            ("R6", "self.pending_pipe_senders.lock().remove(", "self.pending_pipe_senders.remove(", 1)],
+     ensures=[
+       ("C17+C13:a_detach_removes_exactly_this_pipes_entry_and_every_other_pipe_keeps_its_own",
+        "final(self).pipe_read_to_endpoint_uri@ == old(self).pipe_read_to_endpoint_uri@.remove(pipe_read_id) "
+        "&& final(self).ingress_engine.keys@ == old(self).ingress_engine.keys@.remove(pipe_read_id) && final(self).pending_pipe_senders.keys@ == old(self).pending_pipe_senders.keys@.remove(pipe_read_id)"),
+       ("C17+C13:exactly_the_detached_pipes_connection_leaves_the_load_balancer_and_no_other",
+        "final(self).outgoing_orchestrator.ops@ == (if old(self).pipe_read_to_endpoint_uri@.contains_key(pipe_read_id) "
+        "{ old(self).outgoing_orchestrator.ops@.push(OrchOp::Remove { uri: old(self).pipe_read_to_endpoint_uri@[pipe_read_id] }) } else { old(self).outgoing_orchestrator.ops@ })"),
+       ("C13:senders_waiting_for_a_peer_are_woken_after_the_membership_change", "final(self).peer_availability_notifier.wakeups@ == old(self).peer_availability_notifier.wakeups@ + 1"),
+     ]))
 
 FNS = {p.name: p for p in parts if isinstance(p, Fn)}
 unit = Unit("pushpipes", ["C17", "C13"], parts, safety_props=["C17"], notes="PUSH pipe_attached / pipe_detached: membership of the load balancer follows the pipes, one pipe at a time")
